@@ -413,4 +413,99 @@ func TestC19(t *testing.T) {
 		}
 		return b
 	}, func(tb drv.TB, b c19Batch) { c19Run(tb, rec, "batches", b) })
+	// The identifier is a 16-bit counter: the pings around its wrap-around (identifiers 65534, 65535, 0, 1, 2) must be
+	// completed by their replies like any other. Identifiers are used up quickly with pings that fail at once (wrong
+	// address family); where the counter stands is read from the echo request on the wire.
+	type wrapCase struct {
+		V6 bool `json:"v6"`
+	}
+	drv.Prop(t, rec, "wraparound", 1, 4, func(t *rapid.T) wrapCase { return wrapCase{V6: rapid.Bool().Draw(t, "v6")} }, func(tb drv.TB, c wrapCase) {
+		rec.Eval()
+		drv.Begin("C19", "wraparound", 'J', mustJSON(c), 120*time.Second)
+		defer drv.End()
+		w := gen.DefaultWorld()
+		s, conn := newSession(defaultNIC())
+		defer closeSession(s)
+		// one ping whose reply comes as soon as the request is seen; returns the identifier used and the outcome
+		one := func() (int, error) {
+			conn.Take()
+			done := make(chan error, 1)
+			go func() {
+				if c.V6 {
+					done <- s.Ping6(packet.Addr{MAC: hw(w.HostMAC), IP: w.HostLLA}, packet.Addr{MAC: hw(w.Clients[0]), IP: netip.MustParseAddr("fe80::aa")}, time.Second)
+				} else {
+					done <- s.Ping(packet.Addr{MAC: hw(w.Clients[0]), IP: netip.MustParseAddr("192.168.0.5")}, time.Second)
+				}
+			}()
+			id := -1
+			deadline := time.Now().Add(900 * time.Millisecond)
+			for id < 0 && time.Now().Before(deadline) {
+				for _, f := range conn.Take() {
+					d := ref.Decode(f.B)
+					if (d.PayloadID == ref.PICMP4 || d.PayloadID == ref.PICMP6) && d.OffPayload+8 <= len(f.B) && (f.B[d.OffPayload] == 8 || f.B[d.OffPayload] == 128) {
+						id = int(f.B[d.OffPayload+4])<<8 | int(f.B[d.OffPayload+5])
+					}
+				}
+				if id < 0 {
+					time.Sleep(200 * time.Microsecond)
+				}
+			}
+			if id >= 0 {
+				reply := byte(0)
+				if c.V6 {
+					reply = 129
+				}
+				fb := echoFrame(w, c.V6, reply, uint16(id))
+				buf := make([]byte, packet.EthMaxSize)
+				s.Parse(buf[:copy(buf, fb)])
+			}
+			return id, <-done
+		}
+		id, err := one()
+		if id < 0 {
+			rec.Class("inconclusive: echo request not seen in time")
+			return
+		}
+		if err != nil {
+			rec.Violation(tb, "wraparound", "c19-matching-reply-ignored", c, "ping with identifier %d got its reply at once but returned %v", id, err)
+			return
+		}
+		// use up identifiers until the next one is 65534
+		burn := (65534 - (id + 1) + 65536) % 65536
+		for i := 0; i < burn; i++ {
+			if c.V6 {
+				s.Ping6(packet.Addr{MAC: hw(w.HostMAC), IP: w.HostLLA}, packet.Addr{MAC: hw(w.Clients[0]), IP: netip.MustParseAddr("192.168.0.5")}, time.Second)
+			} else {
+				s.Ping(packet.Addr{MAC: hw(w.Clients[0]), IP: netip.MustParseAddr("fe80::aa")}, time.Second)
+			}
+		}
+		var seen []int
+		for k := 0; k < 6; k++ {
+			id, err := one()
+			if id < 0 {
+				rec.Class("inconclusive: echo request not seen in time")
+				return
+			}
+			seen = append(seen, id)
+			if err != nil {
+				rec.Violation(tb, "wraparound", "c19-matching-reply-ignored", c, "ping with identifier %d (identifiers around the wrap-around so far %v) got its reply at once but returned %v", id, seen, err)
+				return
+			}
+		}
+		wrapped := false
+		for i := 1; i < len(seen); i++ {
+			if seen[i] < seen[i-1] {
+				wrapped = true
+			}
+		}
+		rec.Class(fmt.Sprintf("wraparound: counter wrapped=%v", wrapped))
+		if n := packet.VerifPingWaiters(); n != 0 {
+			rec.Violation(tb, "wraparound", "c19-waiter-left-behind", c, "%d waiters left after the wrap-around pings", n)
+			return
+		}
+		if wrapped {
+			rec.NonTrivial(drv.HashJSON(c), func() interface{} { return map[string]interface{}{"v6": c.V6, "identifiers": seen} })
+		}
+	})
+
 }
